@@ -88,6 +88,7 @@ class Module:
                 try:
                     tgt0 = self.classes[cls][name] if cls else self.functions[name]
                     present(tgt0)
+                    present_tables(tgt0, cur_sig)
                 except Exception:
                     pass
                 # not proved: the rules look at the current version.  Branch polarity is brought to the spelling the confirmed
@@ -199,6 +200,110 @@ def present(fn):
                 out.append(st)
         return out
     fn.body = split_blocks(fn.body)
+    ast.fix_missing_locations(fn)
+
+
+def present_tables(fn, sigdb):
+    """more spelling-only rewrites for a changed function the prover could not match: a loop over a literal table (or a module
+    constant that is one) is unrolled - including the search loop `for row in TABLE: if key == row[0]: ...; break` -, and
+    getattr(obj, 'name') is written obj.name.  Names and statement kinds are kept, so the rules see the if / elif chain again."""
+    import copy as _copy
+    from . import equiv, inline
+    nz = equiv.Normalizer(fn, sigdb)
+
+    def const_iter(it):
+        if isinstance(it, ast.Name) and ('modconst', it.id) in sigdb and not any(
+                isinstance(n, ast.Name) and n.id == it.id and isinstance(n.ctx, ast.Store) for n in ast.walk(fn)):
+            v = sigdb[('modconst', it.id)]
+            if isinstance(v, ast.Dict):
+                return None
+            return _copy.deepcopy(v)
+        if isinstance(it, ast.Call) and dotted(it.func) in ('enumerate',) and len(it.args) == 1 and not it.keywords:
+            inner = const_iter(it.args[0])
+            if inner is not None:
+                return ast.Call(func=it.func, args=[inner], keywords=[])
+        return None
+
+    class G(ast.NodeTransformer):
+        def visit_Call(self, n):
+            self.generic_visit(n)
+            if dotted(n.func) == 'getattr' and len(n.args) == 2 and not n.keywords and isinstance(n.args[1], ast.Constant) \
+                    and isinstance(n.args[1].value, str) and n.args[1].value.isidentifier():
+                return ast.copy_location(ast.Attribute(value=n.args[0], attr=n.args[1].value, ctx=ast.Load()), n)
+            return n
+
+    def fold(stmts):
+        # if True: S -> S ; if False: S else: T -> T   (left behind by the substitution of a literal flag)
+        res = []
+        for x in stmts:
+            for f in ('body', 'orelse', 'finalbody'):
+                b = getattr(x, f, None)
+                if isinstance(b, list) and b and isinstance(b[0], ast.stmt) and not isinstance(x, (ast.FunctionDef, ast.ClassDef)):
+                    setattr(x, f, fold(b) or ([ast.copy_location(ast.Pass(), x)] if f == 'body' else []))
+            if isinstance(x, ast.If) and isinstance(x.test, ast.Constant) and isinstance(x.test.value, bool):
+                res += [y for y in (x.body if x.test.value else x.orelse) if not isinstance(y, ast.Pass)]
+            else:
+                res.append(x)
+        return res
+
+    def local_literal(stmts, k):
+        """stmts[k] is `for T in NAME` and stmts[k-1] is `NAME = <tuple / list literal>`, NAME bound nowhere else and read nowhere else"""
+        st = stmts[k]
+        if k == 0 or not isinstance(st.iter, ast.Name):
+            return None
+        prev = stmts[k - 1]
+        nm = st.iter.id
+        if not (isinstance(prev, ast.Assign) and len(prev.targets) == 1 and isinstance(prev.targets[0], ast.Name) and prev.targets[0].id == nm
+                and isinstance(prev.value, (ast.Tuple, ast.List))):
+            return None
+        if sum(1 for n in ast.walk(fn) if isinstance(n, ast.Name) and n.id == nm) != 2:
+            return None
+        return prev.value
+
+    def walk(stmts):
+        out = []
+        for k_, st in enumerate(stmts):
+            for f in ('body', 'orelse', 'finalbody'):
+                b = getattr(st, f, None)
+                if isinstance(b, list) and b and isinstance(b[0], ast.stmt) and not isinstance(st, (ast.FunctionDef, ast.ClassDef)):
+                    setattr(st, f, walk(b))
+            if isinstance(st, ast.Try):
+                for h in st.handlers:
+                    h.body = walk(h.body)
+            if isinstance(st, ast.For):
+                ci = const_iter(st.iter)
+                loc = None
+                if ci is None:
+                    loc = local_literal(stmts, k_)
+                    ci = _copy.deepcopy(loc) if loc is not None else None
+                cand = ast.For(target=st.target, iter=ci if ci is not None else st.iter, body=st.body, orelse=st.orelse)
+                un = None
+                try:
+                    un = nz.unroll(cand)
+                except Exception:
+                    un = None
+                if un is not None and loc is not None:
+                    if any(isinstance(x, ast.Assign) and isinstance(x.targets[0], ast.Name) and x.targets[0].id.startswith('seq__u') for x in un):
+                        un = None       # the elements could not be written where the loop variable stands
+                    else:
+                        out.pop()       # the table itself is no longer read
+                if un is not None:
+                    un = fold(un)
+                    for x in un:
+                        for y in ast.walk(x):
+                            if isinstance(y, (ast.stmt, ast.expr)) and not hasattr(y, 'lineno'):
+                                y.lineno = y.end_lineno = st.lineno
+                                y.col_offset = y.end_col_offset = 0
+                        out.append(G().visit(x))
+                    continue
+            out.append(st)
+        return out
+    saved = equiv._KERNEL_ALIASES
+    equiv._KERNEL_ALIASES = equiv.find_kernel_aliases(fn)
+    try:
+        fn.body = walk(fn.body)
+    finally:
+        equiv._KERNEL_ALIASES = saved
     ast.fix_missing_locations(fn)
 
 
